@@ -25,43 +25,24 @@ def run(ctx):
     R1 = ctx.rule("C09-R1", "tunnel <=> proxy and destination scheme != http and not (https proxy and config and forwarding opted in) - complete decision table of connection_requires_http_tunnel", "E5")
     tf = m.func(f"{PX}.connection_requires_http_tunnel")
 
-    class TR(BaseRule):
-        def getattr(self, it, st, node, base):
-            t = ast.unparse(node)
-            if t == "proxy_url.scheme":
-                return AV("unk", sym="proxy_scheme")
-            if t == "proxy_config.use_forwarding_for_https":
-                return AV("unk", sym="forwarding")
-            return None
+    from ..rows import GenRule, check_decision_table, effect_rows, helper_closure
+    from ..terms import K, T, destruct, subterms
 
-    outs, it = run_function(m, tf, TR(), record_decisions=True)
-    rows = []
-    for o in outs:
-        if o.kind != "return":
-            continue
-        v = o.st.view(o.val)
-        rows.append((o, v.val if v.kind == "const" else v.truth))
-    ctx.sites(R1, len(rows), 4, "rows of the tunnel predicate")
-    for o, val in rows:
-        f = o.st.facts
-        ts = o.st.ts
-        env = {
-            "proxy": None if f.get("p:proxy_url", (None, None))[1] is None else (not f["p:proxy_url"][1]),
-            "http": ts.get(("cmp", "p:destination_scheme", "==", "'http'")),
-            "pxhttps": ts.get(("cmp", "proxy_scheme", "==", "'https'")),
-            "config": f.get("p:proxy_config", (None, None))[0],
-            "fwd": f.get("forwarding", (None, None))[0],
-        }
-        names = list(env)
-        spec_vals = set()
-        for combo in itertools.product([True, False], repeat=len(names)):
-            e = dict(zip(names, combo))
-            if any(env[k] is not None and env[k] != e[k] for k in names):
-                continue
-            spec_vals.add(bool(e["proxy"] and not e["http"] and not (e["pxhttps"] and e["config"] and e["fwd"])))
-        ok = spec_vals == {bool(val)} and val is not None
-        desc = ", ".join(f"{k}={v}" for k, v in env.items() if v is not None)
-        ctx.ob(R1, tf.qual, f"row [{desc}] -> tunnel={val}", ok, "" if ok else f"documented routing gives {sorted(spec_vals)} here", witness=o.st.witness(), node=tf.node)
+    rows1 = effect_rows(ctx, tf, GenRule(ctx, tf.module))
+
+    def env1(r):
+        def present(sym):
+            n_, t_ = r.is_none(sym), r.truth(sym)
+            return (not n_) if n_ is not None else t_
+        return {"proxy": present("p:proxy_url"), "http": r.cmp("p:destination_scheme", "==", K("http")), "pxhttps": r.cmp("p:proxy_url.scheme", "==", K("https")),
+                "config": present("p:proxy_config"), "fwd": r.truth("p:proxy_config.use_forwarding_for_https")}
+
+    n1 = check_decision_table(ctx, R1, tf, rows1, env1, lambda e: e["proxy"] and not e["http"] and not (e["pxhttps"] and e["config"] and e["fwd"]),
+                              "tunnel predicate", "the documented routing is: tunnel <=> proxy, non-http destination, and not (https proxy with forwarding opted in)")
+    ctx.sites(R1, n1, 4, "rows of the tunnel predicate")
+    for r in rows1:
+        if not r.returns:
+            ctx.ob(R1, tf.qual, f"the predicate never raises ({r.out})", False, witness=r.witness(), node=tf.node)
     pc = m.cls("urllib3._base_connection.ProxyConfig")
     fields = [n.target.id for n in pc.node.body if isinstance(n, ast.AnnAssign)]
     ctx.ob(R1, pc.qual, "ProxyConfig carries use_forwarding_for_https", "use_forwarding_for_https" in fields)
@@ -71,26 +52,8 @@ def run(ctx):
 
     # ------------------------------------------------------------------ R2 one predicate, three sites
     R2 = ctx.rule("C09-R2", "one predicate, three sites: PoolManager._proxy_requires_url_absolute_form, ProxyManager.urlopen and HTTPConnectionPool.urlopen each evaluate it with the configured proxy, its config and the scheme parsed from this request's URL", "E6")
-    sites = []
-    for q in (f"{PM}.PoolManager._proxy_requires_url_absolute_form", f"{PM}.ProxyManager.urlopen", f"{CP}.HTTPConnectionPool.urlopen"):
-        fi = m.func(q)
-        cs = [c for c in astq.calls(fi.node) if astq.call_text(c) == "connection_requires_http_tunnel"]
-        ctx.sites(R2, len(cs), 1, f"predicate call in {q}")
-        for c in cs:
-            a = [astq.text(x) for x in c.args] + [f"{k.arg}={astq.text(k.value)}" for k in c.keywords]
-            okp = len(c.args) >= 2 and astq.text(c.args[0]) == "self.proxy" and astq.text(c.args[1]) == "self.proxy_config"
-            sch = c.args[2] if len(c.args) > 2 else astq.kwarg(c, "destination_scheme")
-            srcs = astq.sources_of(fi.node, sch) if sch is not None else []
-            txt = " ".join(astq.text(s) for s in srcs)
-            oks = bool(srcs) and all((".scheme" in astq.text(s)) for s in srcs)
-            # and that parsed object comes from parse_url(url) of this request (or is the parsed_url parameter)
-            base_ok = False
-            for s in srcs:
-                if isinstance(s, ast.Attribute):
-                    bs = astq.sources_of(fi.node, s.value)
-                    base_ok = base_ok or any(astq.text(b) in ("parse_url(url)", "<param:parsed_url>") for b in bs)
-            ctx.ob(R2, q, f"predicate({', '.join(a)})", okp and oks and base_ok,
-                   "" if (okp and oks and base_ok) else "the routing decision is taken on something else than the configured proxy and this request's scheme", node=c)
+    from . import c09_rows
+    c09_rows.r2_sites(ctx, R2)
 
     # ------------------------------------------------------------------ R3 proxy headers never enter a tunnel
     R3 = ctx.rule("C09-R3", "proxy headers (e.g. Proxy-Authorization) reach request headers only when no tunnel is used, and otherwise only set_tunnel(headers=...)", "E6 taint via E4")
@@ -116,32 +79,7 @@ def run(ctx):
             if h is not None and ("self.proxy_headers" in h.tags):
                 leak = s
     ctx.ob(R3, pfi.qual, "on tunnel paths the request headers do not derive from proxy headers", leak is None, witness=leak.st.witness() if leak else None, node=pfi.node)
-    users = []
-    for f in m.repo_funcs():
-        if f.module not in (CP, PM, CN):
-            continue
-        for n in astq.walk_fn(f.node):
-            if isinstance(n, ast.Attribute) and n.attr == "proxy_headers" and isinstance(n.ctx, ast.Load):
-                users.append((f, n))
-    ctx.sites(R3, len(users), 2, "reads of proxy_headers")
-    for f, n in users:
-        stt = astq.stmt_of(n)
-        t = astq.text(stt)
-        ok = False
-        if f.qual == f"{CP}.HTTPConnectionPool.urlopen":
-            ok = t.startswith("headers.update(self.proxy_headers)")
-        elif f.qual == f"{CP}.HTTPSConnectionPool._prepare_proxy":
-            call = astq.enclosing(n, ast.Call)
-            ok = call is not None and astq.call_text(call) == "conn.set_tunnel" and astq.kwarg(call, "headers") is n
-        elif f.qual == f"{PM}.ProxyManager.__init__":
-            ok = "connection_pool_kw['_proxy_headers'] = self.proxy_headers" in t.replace('"', "'")
-        ctx.ob(R3, f.qual, f"use `{t[:70]}`", ok, "" if ok else "proxy headers flow somewhere other than forwarded requests, the CONNECT request or the pool key", node=n)
-    pmu = m.func(f"{PM}.ProxyManager.urlopen")
-    sp = [c for c in astq.calls(pmu.node) if astq.call_text(c) == "self._set_proxy_headers"]
-    for c in sp:
-        g = astq.enclosing(c, ast.If)
-        ok = g is not None and astq.text(g.test).startswith("not connection_requires_http_tunnel(")
-        ctx.ob(R3, pmu.qual, "forwarding headers (Host/Accept) are only set when not tunnelling", ok, node=c)
+    c09_rows.r3_flows(ctx, R3)
 
     # ------------------------------------------------------------------ R4 tunnel precedes request
     R4 = ctx.rule("C09-R4", "when a tunnel is required and the connection is closed (new, or a pooled one that was closed) _prepare_proxy runs before the request; _prepare_proxy sets the tunnel then connects; close() clears the tunnel state", "E4")
@@ -163,14 +101,7 @@ def run(ctx):
                 and s.st.facts.get("field:conn.is_closed", (None, None))[0] is None]
     ctx.ob(R4, pfi.qual, "is_closed is consulted on every tunnel path", not untested,
            "" if not untested else "re-tunnelling does not depend on the connection being closed: a closed pooled connection is reused without CONNECT", witness=untested[0].st.witness() if untested else None, node=pfi.node)
-    pp = m.method(f"{CP}.HTTPSConnectionPool", "_prepare_proxy")
-    seq = [astq.call_text(c) for c in sorted(astq.calls(pp.node), key=lambda c: (c.lineno, c.col_offset)) if astq.call_text(c) in ("conn.set_tunnel", "conn.connect")]
-    ctx.ob(R4, pp.qual, "_prepare_proxy: set_tunnel then connect", seq == ["conn.set_tunnel", "conn.connect"], str(seq))
-    cl = m.method(f"{CN}.HTTPConnection", "close")
-    w = {a for a, _ in astq.self_stores(cl.node)}
-    ctx.ob(R4, cl.qual, "close() clears the tunnel fields", {"_tunnel_host", "_tunnel_port", "_tunnel_scheme"} <= w, f"writes {sorted(w)}")
-    ic = m.method(f"{CN}.HTTPConnection", "is_closed")
-    ctx.ob(R4, ic.qual, "is_closed <=> no socket", "return self.sock is None" in astq.text(ic.node))
+    c09_rows.r4_tunnel_setup(ctx, R4)
 
     # ------------------------------------------------------------------ R5 order inside HTTPSConnection.connect
     R5 = ctx.rule("C09-R5", "inside HTTPSConnection.connect, tunnelling arm: TLS to the proxy (https tunnel scheme) before _tunnel() before the origin TLS wrap; proxy TLS uses the proxy's host and proxy_config assertions; tls_in_tls exactly on the https arm", "E4")
@@ -232,61 +163,15 @@ def run(ctx):
         else:
             ok = seq == ("origin-wrap",) and tit is not None and tit.kind == "const" and tit.val is False
             ctx.ob(R5, cf.qual, f"not tunnelling: events {seq}, tls_in_tls False", ok, witness=s.witness(), node=cf.node)
-    ctp = m.method(hc, "_connect_tls_proxy")
-    wc = [c for c in astq.calls(ctp.node) if astq.call_text(c) == "_ssl_wrap_socket_and_match_hostname"]
-    ctx.sites(R5, len(wc), 1, "proxy TLS wrap")
-    for c in wc:
-        k = {x.arg: astq.itext(ctp.node, x.value) for x in c.keywords}
-        pcfg = "self.proxy_config"
-        ok = k.get("server_hostname") == "hostname" and pcfg in (k.get("assert_hostname") or "") and (k.get("assert_hostname") or "").endswith(".assert_hostname") \
-            and pcfg in (k.get("assert_fingerprint") or "") and (k.get("assert_fingerprint") or "").endswith(".assert_fingerprint") \
-            and pcfg in (k.get("ssl_context") or "") and (k.get("ssl_context") or "").endswith(".ssl_context") and k.get("tls_in_tls") == "False"
-        ctx.ob(R5, ctp.qual, "proxy TLS is verified against the proxy's host with the proxy_config assertions and context", ok, str({x: k.get(x) for x in ("server_hostname", "assert_hostname", "assert_fingerprint", "ssl_context", "tls_in_tls")})[:300], node=c)
-    callers = [c for c in astq.calls(cf.node) if astq.call_text(c) == "self._connect_tls_proxy"]
-    ctx.ob(R5, cf.qual, "the proxy handshake names the proxy's host (self.host of the proxied connection)", bool(callers) and astq.text(callers[0].args[0]) == "self.host")
-    pv = [n for n in astq.walk_fn(ctp.node) if isinstance(n, ast.Assign) and astq.text(n.targets[0]) == "self.proxy_is_verified"]
-    ok = bool(pv) and isinstance(pv[0].value, ast.Attribute) and pv[0].value.attr == "is_verified" \
-        and any(isinstance(x, ast.Call) and astq.call_text(x) == "_ssl_wrap_socket_and_match_hostname" for x in astq.sources_of(ctp.node, pv[0].value.value))
-    ctx.ob(R5, ctp.qual, "proxy_is_verified is the proxy handshake's verdict", ok)
+    c09_rows.r5_proxy_tls(ctx, R5, [s_ for _, s_ in cr.wraps])
 
     # ------------------------------------------------------------------ R6 dial the proxy
     R6 = ctx.rule("C09-R6", "with a proxy an HTTPS pool dials the proxy: the connection is constructed with the proxy's host and port", "E6")
-    nc = m.method(f"{CP}.HTTPSConnectionPool", "_new_conn")
-    cc = [c for c in astq.calls(nc.node) if astq.call_text(c) == "self.ConnectionCls"]
-    ctx.sites(R6, len(cc), 1, "ConnectionCls construction in HTTPSConnectionPool._new_conn")
-    for c in cc:
-        for kwn, pf in (("host", "host"), ("port", "port")):
-            v = astq.kwarg(c, kwn)
-            srcs = astq.sources_of(nc.node, v) if v is not None else []
-            txt = {astq.text(s) for s in srcs}
-            ok = f"self.proxy.{pf}" in txt and f"self.{pf}" in txt
-            ctx.ob(R6, nc.qual, f"{kwn} is the proxy's when a proxy is set, else the pool's ({sorted(txt)})", ok, node=c)
-    g = [n for n in astq.walk_fn(nc.node) if isinstance(n, ast.If) and "self.proxy is not None" in astq.text(n.test)]
-    ctx.ob(R6, nc.qual, "the switch is guarded by the proxy being configured", bool(g))
-    # plain-http pools through a proxy are created for the proxy's address by ProxyManager.connection_from_host
-    cfh = m.func(f"{PM}.ProxyManager.connection_from_host")
-    txt = astq.text(cfh.node)
-    ok = "if scheme == 'https':" in txt.replace('"', "'") and "self.proxy.host, self.proxy.port, self.proxy.scheme" in txt
-    ctx.ob(R6, cfh.qual, "non-https destinations use the proxy's own pool; https destinations get a per-destination pool", ok)
+    c09_rows.r6_dial(ctx, R6)
 
     # ------------------------------------------------------------------ R7 bracketed CONNECT host
     R7 = ctx.rule("C09-R7", "the CONNECT target is the URL's host with IPv6 brackets kept and the pool's port: set_tunnel(host=self._tunnel_host, port=self.port) where _tunnel_host comes from the bracket-preserving normaliser", "E6")
-    st_calls = [c for c in astq.calls(pp.node) if astq.call_text(c) == "conn.set_tunnel"]
-    ctx.sites(R7, len(st_calls), 1, "set_tunnel call")
-    for c in st_calls:
-        k = {x.arg: astq.text(x.value) for x in c.keywords}
-        ok = k.get("host") == "self._tunnel_host" and k.get("port") == "self.port"
-        ctx.ob(R7, pp.qual, f"set_tunnel(host={k.get('host')}, port={k.get('port')})", ok, node=c)
-        sc = astq.kwarg(c, "scheme")
-        srcs = astq.sources_of(pp.node, sc) if sc is not None else []
-        ok = bool(srcs) and {astq.text(s) for s in srcs} <= {"'https'", "'http'", '"https"', '"http"'}
-        ctx.ob(R7, pp.qual, "tunnel scheme is http or https according to the proxy's scheme", ok)
-    cpi = m.method(f"{CP}.ConnectionPool", "__init__")
-    th = [n for n in astq.walk_fn(cpi.node) if isinstance(n, ast.Assign) and astq.text(n.targets[0]) == "self._tunnel_host"]
-    ok = bool(th) and astq.text(th[0].value).startswith("normalize_host(host, scheme=self.scheme)")
-    q = m.resolve_name(cpi.module, ast.parse("normalize_host").body[0].value)
-    ok = ok and q == "urllib3.util.url._normalize_host"
-    ctx.ob(R7, cpi.qual, "_tunnel_host uses the URL-level normaliser (brackets kept), not the bracket-stripping one", ok, astq.text(th[0].value) if th else "")
+    c09_rows.r7_connect_target(ctx, R7)
 
     # ------------------------------------------------------------------ R8 request-target form
     R8 = ctx.rule("C09-R8", "request-target form: the manager hands the pool the absolute URL iff a proxy is used without tunnel, else the origin-form request_uri", "E4")
@@ -310,10 +195,7 @@ def run(ctx):
     forms = {k[0] for k in seen}
     ctx.ob(R8, mfi.qual, "both forms are reachable: absolute-form for forwarded requests, origin-form otherwise", forms >= {True, False} or forms >= {True, None},
            "" if (forms >= {True, False} or forms >= {True, None}) else f"only forms {sorted(map(str, forms))} exist: requests forwarded by a proxy would carry a relative target (or vice versa)", node=mfi.node)
-    af = m.func(f"{PM}.PoolManager._proxy_requires_url_absolute_form")
-    txt = astq.text(af.node)
-    ok = "if self.proxy is None:\n        return False" in txt and "return not connection_requires_http_tunnel(" in txt
-    ctx.ob(R8, af.qual, "absolute form <=> proxy and not tunnel", ok)
+    c09_rows.r8_absolute_form(ctx, R8)
 
     # ------------------------------------------------------------------ R9 shared with C04-R8 (F11)
     from .c04 import rule_r8
